@@ -32,7 +32,7 @@ class WorldC08(World):
               'from-string', 'bep-transition-state', 'bep-shared-by-two-reactions', 'flags-as-numpy-bool', 'flags-as-int',
               'Keq-of-activation', 'arrhenius-Ea-explicit-molecularity', 'two-reactions-from-one-string',
               'coefficients-edited-in-place', 'rejected-call-then-valid-calls', 'dimensional-getters',
-              'electronic-energy-with-ZPE')
+              'electronic-energy-with-ZPE', 'q-of-activation', 'species-with-constant-mode')
     REAL = ('pmutt.reaction.Reaction / ChemkinReaction / pmutt.omkm.reaction.SurfaceReaction getters',
             'pmutt._get_specie_kwargs / _force_pass_arguments', 'StatMech, Nasa, Shomate species')
     SIMULATED = ('1-3 clients evaluating reactions over shared species and shared, re-used condition dictionaries',)
@@ -67,6 +67,7 @@ class WorldC08(World):
         self.nasa, self.sho, self.rx, self.orx = nasa, sho, rx, orx
         self.sp = {}       # id -> species object
         self.spk = {}      # id -> kind
+        self.spc = {}      # id -> True if the species carries a user-set constant mode
         self.rxn = {}      # id -> reaction
         self.rxm = {}      # id -> dict(reactants [(sid, nu)], products, ts, cls)
         self.cond = {}     # id -> caller-owned dict
@@ -89,7 +90,11 @@ class WorldC08(World):
                 'id': len(self.sp), 'kind': kind, 'name': NAME_SETS[sw.get('names', 'plain')][len(self.sp)], 'E': round(rng.uniform(-30, -1), 4),
                 'wn': [round(rng.uniform(100, 4000), 1) for _ in range(rng.randint(1, 4))],
                 'mw': round(rng.uniform(2, 200), 2), 'rot': [round(rng.uniform(0.05, 50), 3) for _ in range(3)],
-                'scale': round(rng.uniform(0.7, 1.3), 3), 'phase': rng.choice(['G', 'S'])}}
+                'scale': round(rng.uniform(0.7, 1.3), 3), 'phase': rng.choice(['G', 'S']),
+                # a user-set constant contribution whose G, H and S are independent numbers (eV, eV/K)
+                'const': ({'G': round(rng.uniform(-1, 1), 4), 'H': round(rng.uniform(-1, 1), 4),
+                           'S': round(rng.uniform(0, 2e-3), 7), 'U': round(rng.uniform(-1, 1), 4),
+                           'F': round(rng.uniform(-1, 1), 4)} if kind == 'StatMech' and rng.random() < 0.2 else None)}}
         if len(self.bep) < sw.get('n_bep', 0) and len(self.sp) >= sw['n_species']:
             return {'c': c, 'op': 'mkbep', 'args': {'id': len(self.bep), 'slope': round(rng.uniform(0, 1), 3),
                                                     'intercept': round(rng.uniform(0, 40), 2),
@@ -163,7 +168,7 @@ class WorldC08(World):
                                                           'dE': round(rng.uniform(-2, 2), 4)}}
         r = rng.choice(sorted(self.rxn))
         cls = self.rxm[r]['cls']
-        q = rng.choice(QUANT if cls == 'Reaction' else UNCLAMPED)
+        q = rng.choice(QUANT if cls == 'Reaction' else UNCLAMPED + ['HoRT', 'GoRT'])
         if self.rxm[r].get('bep') is not None and rng.random() < 0.8:
             q = rng.choice(['HoRT', 'SoR', 'GoRT'])
         return {'c': c, 'op': 'eval', 'args': {'rxn': r, 'cond': rng.choice(sorted(self.cond)), 'q': q,
@@ -179,7 +184,8 @@ class WorldC08(World):
                                     vib_model=self.vib.HarmonicVib(vib_wavenumbers=list(a['wn'])),
                                     rot_model=self.rot.RigidRotor(symmetrynumber=2, rot_temperatures=list(a['rot']),
                                                                   geometry='nonlinear'),
-                                    elec_model=self.elec.GroundStateElec(potentialenergy=a['E'], spin=0))
+                                    elec_model=self.elec.GroundStateElec(potentialenergy=a['E'], spin=0),
+                                    nucl_model=(self.sm.ConstantMode(**a['const']) if a.get('const') else self.sm.EmptyMode()))
         s = a['scale']
         if a['kind'] == 'Nasa':
             return self.nasa.Nasa(name=a['name'], elements={'H': 2, 'O': 1}, phase=a['phase'], T_low=100.0, T_mid=1000.0,
@@ -266,6 +272,7 @@ class WorldC08(World):
                 raise Skip()
             self.sp[a['id']] = self._mk_species(a)
             self.spk[a['id']] = a['kind']
+            self.spc[a['id']] = bool(a.get('const'))
             out = a['kind']
         elif name == 'mkbep':
             if a['id'] in self.bep or a['descriptor'] not in BEP_DESCRIPTORS:
@@ -323,6 +330,8 @@ class WorldC08(World):
                 ctx.probe('species-on-both-sides')
             if len(set(self.spk[i] for i, _ in allm)) > 1:
                 ctx.probe('mixed-model-classes')
+            if any(self.spc.get(i) for i, _ in allm):
+                ctx.probe('species-with-constant-mode')
             for sid in set(i for i, _ in allm):
                 n = sum(1 for m in self.rxm.values() if sid in [i for i, _ in m['reactants'] + m['products'] + m['ts']])
                 if n >= 3:
@@ -495,7 +504,7 @@ class WorldC08(World):
                     raise Violation('activation', 'reaction %d: get_delta_%s(rev=%s, act=True) = %r; transition state - '
                                     'initial state = %r' % (r, q, rv, g, w))
                 acts[rv] = g
-                if q not in ('EoRT', 'q'):
+                if q not in ('EoRT', 'q') and not (m['cls'] != 'Reaction' and q in ('HoRT', 'GoRT')):
                     g2 = call(getattr(rxn, 'get_%s_act' % q), 'get_%s_act(rev=%s)' % (q, rv), rev=F(rv))
                     if not self._close(g2, w, tscale + val[i0][1], q):
                         raise Violation('activation', 'reaction %d: get_%s_act(rev=%s) = %r; transition state - initial '
@@ -519,6 +528,23 @@ class WorldC08(World):
                 raise Violation('Keq', 'reaction %d: ln Keq = %r, -delta G/RT = %r' % (r, math.log(kf), -dG))
             if abs(math.log(kf) + math.log(kr)) > 1e-9 * max(1.0, scale):
                 raise Violation('Keq', 'reaction %d: Keq(forward) x Keq(reverse) = %r' % (r, kf * kr))
+        if m['ts'] and m.get('bep') is None and q == 'q' and all(self.spk[i] == 'StatMech' for i, _ in m['reactants'] + m['products'] + m['ts']):
+            # the partition-function ratio of activation (its default leaves the zero-point energy out)
+            for rv in (False, True):
+                num, den = 1.0, 1.0
+                try:
+                    for sid, nu in m['ts']:
+                        num *= float(self.sp[sid].get_q(include_ZPE=False, **self._route(self.sp[sid].name, cond))) ** nu
+                    for sid, nu in m['products' if rv else 'reactants']:
+                        den *= float(self.sp[sid].get_q(include_ZPE=False, **self._route(self.sp[sid].name, cond))) ** nu
+                except OverflowError:
+                    continue
+                gq = call(rxn.get_q_act, 'get_q_act(rev=%s)' % rv, rev=F(rv))
+                wq = num / den if den else float('inf')
+                if math.isfinite(wq) and 1e-250 < abs(wq) < 1e250 and abs(gq - wq) > 1e-9 * abs(wq):
+                    raise Violation('activation', 'reaction %d: get_q_act(rev=%s) = %r; q_ts / q_initial without zero-point energy = %r' % (
+                        r, rv, gq, wq))
+            ctx.probe('q-of-activation')
         if 'transition state' in val and q == 'GoRT' and m['cls'] == 'Reaction':
             # the equilibrium constant of activation, in both directions
             ts = val['transition state'][0]
